@@ -42,6 +42,22 @@ void drive_ldexp(const char* type, const char* opname, const std::vector<typenam
     end_cell();
 }
 
+template<class V> void sweep(const char*, std::false_type) {}
+template<class V> void sweep(const char* type, std::true_type) {
+    typedef typename V::scalar T;
+    typedef typename ExpT<T>::type IT;
+    typedef avel::Vector<IT, V::width> IV;
+    if (!opt().thorough) return;
+    SameFp<T> feq; SameValue<T> veq; IntEq<IT> ieq;
+    fsweep32<V, T>("C12", type, "frexp_mant/all2^32", [](V a) { IV e; return avel::to_array(avel::frexp(a, &e)); }, [](T a, T& o) { int e; o = Libm<T>::frexp(a, &e); return true; }, feq);
+    fsweep32<V, IT>("C12", type, "frexp_exp/all2^32", [](V a) { IV e; (void)avel::frexp(a, &e); return avel::to_array(e); },
+                    [](T a, IT& o) { if (is_nan_bits(a) || std::isinf(a)) return false; int e; (void)Libm<T>::frexp(a, &e); o = e; return true; }, ieq);
+    fsweep32<V, IT>("C12", type, "ilogb/all2^32", [](V a) { return avel::to_array(avel::ilogb(a)); }, [](T a, IT& o) { o = (IT)Libm<T>::ilogb(a); return true; }, ieq);
+    fsweep32<V, T>("C12", type, "logb/all2^32", [](V a) { return avel::to_array(avel::logb(a)); }, [](T a, T& o) { o = Libm<T>::logb()(a); return true; }, feq);
+    fsweep32<V, T>("C12", type, "frac/all2^32", [](V a) { return avel::to_array(avel::frac(a)); },
+                   [](T a, T& o) { if (std::isinf(a)) { o = (T)NAN; return true; } volatile T x = a; volatile T t = Libm<T>::trunc()(a); volatile T r = x - t; o = r; return true; }, veq);
+}
+
 template<class V>
 void run(const char* type) {
     typedef typename V::scalar T;
@@ -83,6 +99,7 @@ void run(const char* type) {
                         [](T a, T b, T& o) { if (is_nan_bits(a) || is_nan_bits(b)) return false; if (std::isinf(a) && std::isinf(b) && a == b) return false;
                                              if (a > b) { volatile T x = a, y = b; volatile T r = x - y; o = r; } else o = (T)0; return true; }, veq);
 
+    sweep<V>(type, SweepThis<V>());
     // ldexp / scalbn: every value class x every exponent from far below to far above the representable range
     std::vector<int> exps;
     const int M = FBits<T>::mant, B = FBits<T>::bias;
